@@ -66,7 +66,7 @@ func (r c16Rect) near(o c16Rect) bool {
 	return math.Abs(r.x0-o.x0) < 0.6 && math.Abs(r.y0-o.y0) < 0.6 && math.Abs(r.x1-o.x1) < 0.6 && math.Abs(r.y1-o.y1) < 0.6
 }
 
-func c16Color(i int) (int, int, int) { return 10 + 20*i, 250 - 20*i, (37 * i) % 256 }
+func c16Color(i int) (int, int, int) { return (10 + 20*i) % 256, ((250-20*i)%256 + 256) % 256, (37 * i) % 256 }
 
 func c16HTML(s *stScn) string {
 	var b strings.Builder
